@@ -337,6 +337,16 @@ ssize File::read(void* buffer, usize len)
 
 bool File::readAll(String& data)
 {
+#ifndef _WIN32
+  struct stat fileStat;
+  if(fstat((int)(intptr_t)fp, &fileStat) != 0)
+    return false;
+  if(S_ISDIR(fileStat.st_mode))
+  { // a directory can be opened but not read, and what lseek reports as its end is not a size
+    errno = EISDIR;
+    return false;
+  }
+#endif
   int64 fileSize = size();
   if(fileSize < 0)
     return false;
